@@ -11,17 +11,20 @@ ASSUMPTIONS = [
 ]
 
 
-def _b(nv, seq_max, rank_max, k, N, cs, dups=True, s0=None, dmax=1, writable=True):
-    b = {"nv": nv, "seq_max": seq_max, "rank_max": rank_max, "k": k, "N": N, "cs": cs, "dups": dups, "s0": s0, "dmax": dmax, "writable": writable}
+def _b(nv, seq_max, rank_max, k, N, cs, dups=True, s0=None, dmax=1, writable=True, seqs=None):
+    b = {"nv": nv, "seq_max": seq_max, "rank_max": rank_max, "k": k, "N": N, "cs": cs, "dups": dups, "s0": s0, "dmax": dmax, "writable": writable,
+         "seqs": seqs}
     b["_label"] = "%dv-seq%d-rank%d-k%d-N%d-c%s%s%s" % (nv, seq_max, rank_max + 1, k, N, "".join(map(str, cs)), ("-dup%d" % dmax) if dups else "",
-                                                       ("" if s0 is None else "-s0_%d" % s0) + ("" if writable else "-readonly"))
+                                                       ("" if s0 is None else "-s0_%d" % s0) + ("" if writable else "-readonly")
+                                                       + ("" if seqs is None else "-seqs" + "_".join(map(str, seqs))))
     return b
 
 
 T = {"quick": 150, "thorough": 1500}
 OBLIGATIONS = [
     chx("health", "C14_h", "h_health", timeout=T,
-        cases={"quick": [_b(2, 2, 1, 2, 3, [1, 2, 3], dups=False, s0=s) for s in (1, 2)] + [_b(2, 1, 1, 2, 3, [1, 2, 3], dups=True)],
+        cases={"quick": [_b(2, 2, 1, 2, 3, [1, 2, 3], dups=False, s0=s) for s in (1, 2)] + [_b(2, 1, 1, 2, 3, [1, 2, 3], dups=True)]
+               + [_b(2, 3, 0, 2, 3, [2, 3], dups=False, seqs=[9, 10, 100])],
                "thorough": [_b(2, 3, 1, k, 3, [k - 1, k, 3] if k < 3 else [2, 3], s0=s) for k in (1, 2, 3) for s in (1, 2, 3)]
                + [_b(2, 2, 1, 2, 3, [1, 2, 3], dups=True, s0=s) for s in (1, 2)]
                + [_b(3, 2, 1, 2, 3, [1, 2, 3], dups=False, s0=s) for s in (1, 2)]},
@@ -32,7 +35,8 @@ OBLIGATIONS = [
         outside="verify=True (reading every share); happiness count; report text"),
     chx("repair_rules", "C14_h", "h_repair", timeout=T,
         cases={"quick": [_b(2, 2, 1, 2, 3, [1, 2], dups=True), _b(2, 2, 0, 3, 4, [2, 3], dups=True, dmax=2),
-                         _b(2, 2, 0, 2, 3, [1, 2], dups=False, writable=False)],
+                         _b(2, 2, 0, 2, 3, [1, 2], dups=False, writable=False),
+                         _b(2, 3, 0, 2, 3, [1, 2], dups=False, seqs=[9, 10, 100]), _b(2, 2, 0, 2, 3, [1, 2], dups=False, seqs=[99, 100])],
                "thorough": [_b(3, 2, 1, 2, 3, [1, 2], dups=False, s0=s) for s in (1, 2)] + [_b(2, 3, 2, 2, 3, [1, 2, 3], dups=True, s0=s) for s in (1, 2, 3)]
                + [_b(2, 2, 1, 3, 4, [2, 3], dups=True, dmax=2)]},
         desc="Repairer._got_full_servermap(smap, force) with force symbolic, writecap by case, copies of one share number on several servers (they are not distinct shares): nothing recoverable -> unsuccessful result, grid "
@@ -53,4 +57,12 @@ OBLIGATIONS = [
              "grid untouched and repair_attempted/unsuccessful recorded; otherwise exactly the best version is republished and the "
              "check-and-repair results record it",
         outside="what MODE_REPAIR makes the updater do; the publish itself"),
+    chx("verify_marks", "C14_h", "h_verify_marks", timeout=T,
+        cases={"quick": [_b(1, 1, 0, 2, 3, [2, 3], dups=True), _b(2, 2, 0, 2, 3, [2, 3], dups=False)],
+               "thorough": [_b(2, 2, 1, 2, 3, [1, 2, 3], dups=True, s0=s) for s in (1, 2)] + [_b(2, 2, 0, 3, 4, [3, 4], dups=True, dmax=2)]},
+        desc="check(verify=True) path: real _got_mapupdate_results -> _verify_all_shares -> _process_bad_shares -> _make_checker_results with a "
+             "stand-in verifier that marks a symbolic subset of the best version's share copies bad on the map object it was GIVEN: the "
+             "verifier reads the best version in verify mode, and healthy / recoverable / good-share count / need_repair / corrupt-share list "
+             "reflect exactly the shares not found bad (so the map handed to the verifier must be the one classified afterwards)",
+        outside="Retrieve's verify mode itself (which shares it finds bad)"),
 ]
